@@ -184,7 +184,7 @@ def make_col(tn, dtype, dom, nrows, quick, thorough):
 
 DEC_PALETTE = [D('0'), D('1'), D('-1'), D('2.50'), D('-2.50'), D('0.001'), D('-0.5'), D('-0.125'), D('12345.678'), D('1E+2'),
                D('100'), D('-67')]
-SETS = [set(), {'a'}, {'b', 'a'}, {'tag-one', 'x'}]
+SETS = [set(), {'a'}, {'b', 'a'}, {'tag-one', 'x'}, {'abcdef'}, {'a', 'b', 'c'}]
 make_col('int', int, sym.VInt(-10 ** 5, 10 ** 5), 1, 300, 900)
 make_col('int', int, sym.VInt(-99, 99), 2, 300, 900)
 make_col('str', str, sym.VChoice(['', 'a', ' a', 'b ', 'a b', 'abc', 'a long string value'], str, nullable=True), 2, 240, 900)
